@@ -3,6 +3,7 @@ import ast
 
 from sa.core import AnalysisError, norm
 from sa.pat import AnyOf, StatusIn, StatusNotIn
+from rules._shared import submit_retry_reset_rules
 
 TECHNIQUE = ('static analysis: uniqueness guards on the pool map, guard atoms '
              'of the respawn decision (history lookup by flow intersection, '
@@ -208,6 +209,8 @@ def check(c):
              c.where(s.node, rl), '')
         c.guard('C02.submit-num', s.node, ["status == 'preparing'"], rl,
                 at_entry=True)
+    # ---- submission retries are consumed by failed submissions only
+    submit_retry_reset_rules(c, 'C02')
 
 
 def _enclosing_if(c, n, test_pat):
@@ -269,4 +272,23 @@ VARIANTS = [
      '''        no_retries = True
         LOG.error(f"[{itask}] {self.EVENT_SUBMIT_FAILED}")''',
      'C02.no-retry'),
+    ('reset-on-submitted', 'cylc/flow/task_events_mgr.py',
+     '''        itask.set_summary_time('submitted', event_time)
+''', '''        itask.set_summary_time('submitted', event_time)
+        if TimerFlags.SUBMISSION_RETRY in itask.try_timers:
+            itask.try_timers[TimerFlags.SUBMISSION_RETRY].num = 0
+''', 'C02.submit-retry-reset'),
+    ('benign-reset-helper', 'cylc/flow/task_events_mgr.py',
+     '''        # submission was successful so reset submission try number
+        if TimerFlags.SUBMISSION_RETRY in itask.try_timers:
+            itask.try_timers[TimerFlags.SUBMISSION_RETRY].num = 0
+
+    def _process_job_started(''',
+     '''        self._reset_submit_tries(itask)
+
+    def _reset_submit_tries(self, itask):
+        if TimerFlags.SUBMISSION_RETRY in itask.try_timers:
+            itask.try_timers[TimerFlags.SUBMISSION_RETRY].num = 0
+
+    def _process_job_started(''', None),
 ]
